@@ -80,9 +80,12 @@ int main(int argc, char** argv)
       primesieve::iterator it(a1);
       for (uint64_t i = 0; i < a2; i++) { try { val((i / 7) % 2 == 0 ? it.next_prime() : it.prev_prime()); } catch (...) { tag(classify()); } }
     }
-  } else if (w == "c_iter_fwd" || w == "c_iter_bwd") {
-    primesieve_iterator it; primesieve_init(&it); primesieve_jump_to(&it, a1, UINT64_MAX);
-    for (uint64_t i = 0; i < a2; i++) {
+  } else if (w == "c_iter_fwd" || w == "c_iter_bwd" || w == "c_skipto_fwd" || w == "c_skipto_bwd") {
+    bool sk = w.find("skipto") != std::string::npos; if (sk) w = w == "c_skipto_fwd" ? "c_iter_fwd" : "c_iter_bwd";
+    primesieve_iterator it; primesieve_init(&it);
+    if (sk) { errno = 0; primesieve_skipto(&it, a1, UINT64_MAX); if (it.is_error) tag(errno == EDOM ? "skipto-err" : "skipto-err?"); }   // deprecated entry point: allocates IteratorData itself
+    else primesieve_jump_to(&it, a1, UINT64_MAX);
+    for (uint64_t i = 0; i < a2 && !(sk && it.is_error); i++) {
       errno = 0; uint64_t v = w == "c_iter_fwd" ? primesieve_next_prime(&it) : primesieve_prev_prime(&it);
       if (it.is_error) { tag(v == PRIMESIEVE_ERROR && errno == EDOM ? "E" : "E?"); break; } val(v);
     }
